@@ -3,6 +3,7 @@ From Coq Require Import List NArith ZArith Bool Lia Arith.
 From Coq Require Import ZifyBool ZifyNat ZifyN.
 Import ListNotations.
 Require Import Aurora.Consts Aurora.C02.Model Aurora.C02.Spec Aurora.C02.Stream Aurora.C02.Proofs.
+Require Import Aurora.C02.Cursor Aurora.C02.CursorPipe Aurora.C02.CursorMain.
 
 Definition ChunkSize : nat := Z.to_nat Consts.boson_ChunkSize.
 Definition Branches : nat := Z.to_nat Consts.boson_Branches.
@@ -76,4 +77,40 @@ Lemma at_source_constants : consts_ok_C02_b = true -> forall (H : bytes -> bytes
 Proof.
   intros Hc H Hlen segs Hsz. destruct (ChunkSize_val Hc) as [Hcs Hbr].
   apply equals_spec; [lia | lia | exact Hlen | lia | exact (source_capacity Hc (concat segs) Hsz)].
+Qed.
+
+(** ** the same statements for the pipeline over the code's data structure: one shared
+    buffer of [buflen] bytes and nine cursors (Cursor.v, CursorPipe.v) *)
+Definition BufLen : nat := Z.to_nat (Consts.boson_ChunkWithSpanSize * 9 * 2).
+
+Lemma equals_spec_code : forall (H : bytes -> bytes) (cs b refLen buflen : nat),
+  (0 < cs)%nat -> (2 <= b)%nat -> (forall x, length (H x) = refLen) ->
+  (8 * Z.of_nat b * (Z.of_nat refLen + 8) <= Z.of_nat buflen)%Z ->
+  forall segs : list bytes,
+  (Z.of_nat (length (concat segs)) + Z.of_nat cs + 8 < 2 ^ 63)%Z ->
+  (length (chunks_of cs (concat segs)) <= b ^ 7)%nat ->
+  exists u, cupload H cs b refLen buflen segs = Ok u
+            /\ spec_hash H cs b (concat segs) = Some (u_root u)
+            /\ u_rets u = map (fun s => Z.of_nat (length s)) segs.
+Proof.
+  intros H cs b refLen buflen Hcs Hb Hlen Hroom segs H63 Hcap.
+  destruct (equals_spec H cs b refLen Hcs Hb Hlen segs H63 Hcap) as (u & Hu & Hs & Hr).
+  exists u. split; [|now split]. apply cupload_refines; try assumption. lia.
+Qed.
+
+Lemma at_source_constants_code : consts_ok_C02_b = true -> forall (H : bytes -> bytes),
+  (forall x, length (H x) = HashSize) ->
+  forall segs : list bytes,
+  (Z.of_nat (length (concat segs)) < 2 ^ 63 - 262152)%Z ->
+  exists u, cupload H ChunkSize Branches HashSize BufLen segs = Ok u
+            /\ spec_hash H ChunkSize Branches (concat segs) = Some (u_root u)
+            /\ u_rets u = map (fun s => Z.of_nat (length s)) segs.
+Proof.
+  intros Hc H Hlen segs Hsz. destruct (ChunkSize_val Hc) as [Hcs Hbr].
+  pose proof Hc as Hc'. unfold consts_ok_C02_b in Hc'. rewrite !andb_true_iff in Hc'.
+  destruct Hc' as ((((((((C1 & C2) & C3) & C4) & C5) & C6) & C7) & C8) & C9).
+  apply Z.eqb_eq in C1, C2, C3, C4. apply Z.leb_le in C7.
+  apply equals_spec_code; try assumption; try lia.
+  - unfold BufLen, HashSize. rewrite Hbr. rewrite C3, C4, C2 in C7. rewrite C4. lia.
+  - exact (source_capacity Hc (concat segs) Hsz).
 Qed.
